@@ -32,13 +32,21 @@ FLAVORS = ["pair", "same-sign", "zero-entry", "three-commodity", "half-unit", "u
 
 def run(chk):
     chk.rule = ("random structured ledgers (1-6 transactions, 1-6 postings; explicit/omitted/assigned amounts, costs @/@@, lot prices, "
-                "parenthesised expressions, declared precisions 0-3) with 60% of the cases forced into C01's boundary flavors; "
+                "parenthesised expressions, declared precisions 0-3) with 60% of the cases forced into C01's boundary flavors; plus "
+                "EXHAUSTIVELY every 2-posting transaction over 3 commodities x values {-1,0,1} x {plain,@,@@,{}} (thorough: values "
+                "{-2..2}, precisions {none,0}, and every 3-posting transaction over {-1,0.5,1}); "
                 "non-trivial = the implementation accepted or rejected it by a book-keeping rule; distinct = distinct ledger texts")
     chk.assumptions = ["rust_decimal is exact on the generated values (small decimals, rates 2^a*5^b)",
                        "the parser is outside this check: the model and the oracle consume the implementation's parsed tree"]
     if not standard_prologue(chk, THEOREMS, imports=["Okane.Props.Book"]):
         return
     n = 2500 if chk.tier == "quick" else 60000
-    recs = run_stream(chk, n, FLAVORS)
+    from bookstream import exhaustive_txns
+    if chk.tier == "quick":
+        ex = exhaustive_txns(["-1", "0", "1"], 2, [None])                      # (3*3*4)^2 + 36 = 1332 transactions
+    else:
+        ex = exhaustive_txns(["-2", "-1", "0", "1", "2"], 2, [None, 0]) + exhaustive_txns(["-1", "0.5", "1"], 3, [None])
+    chk.streams["exhaustive 2-/3-posting transactions"] = len(ex)
+    recs = run_stream(chk, n, FLAVORS, exhaustive=ex)
     chk.streams["process"] = len(recs)
     judge(chk, recs, "C01")
